@@ -1,0 +1,20 @@
+//go:build verif
+
+// Machine-checked contracts for package flows/definition/migrations (comment-only; read by /verif/gocv).
+// Most functions of this package are covered by the zero-annotation no-panic sweep (/verif/sweeps/C16.json).
+
+package migrations
+
+// the truncation helper of the 13.6 migration is only handed the two positive name limits
+//@ func Migrate13_6$1
+//@   nopanic
+//@   requires max >= 0
+
+// a definition that is already at (or beyond) the newest registered version is handed back untouched
+//@ func migrate
+//@   havocs ReadFlow, Marshal, SliceStable
+//@   checks [current_untouched] len(versions) == 0 ==> (result0 == data && isnil(result1))
+//@ loop 1
+//@   invariant true
+//@ loop 2
+//@   invariant len(versions) > 0
